@@ -153,6 +153,52 @@ def replay_behaviour(ctx, beh, with_u):
     ctx.case(('prog', tuple(word)))
 
 
+def run_wide(ctx, quick):
+    """wide registers (6..9 qubits): a fixed family of target tuples / control sets, generic gate matrix with pairwise different entries"""
+    import numqi
+    r = tlc.run('qsim/MC_EmbedWide.tla', 'qsim/MC_EmbedWide_%s.cfg' % ('q' if quick else 't'), dump=True, timeout=3000)
+    ctx.add_model('MC_EmbedWide(n<=%d)' % (7 if quick else 9), r)
+    for st in tlc.parse_dump(r):
+        c = st['cfg']
+        n, tg, ctrl, col = c['n'], tuple(q - 1 for q in c['tg']), {q - 1 for q in setof(c['ctrl'])}, c['col']
+        K = 2 ** len(tg)
+        op = np.array([[(rr + 1) + 1j * (cc + 1) for cc in range(K)] for rr in range(K)])
+        want = zo_vec(st['out'])
+        data = dict(n=n, targets=list(tg), controls=sorted(ctrl), column=col)
+        ctx.case(('wide', n, tg, tuple(sorted(ctrl)), col))
+        try:
+            e = np.zeros(2 ** n, dtype=complex)
+            e[col] = 1
+            got = numqi.sim.state.apply_control_n_gate(e, op, ctrl, tg) if ctrl else numqi.sim.state.apply_gate(e, op, tg)
+            if core.gt(np.abs(got - want).max(), TOL):
+                ctx.violation('C03:%s:wide-register' % ('state.apply_control_n_gate' if ctrl else 'state.apply_gate'), 'embedded operator on a basis column of a %d-qubit register' % n, data)
+            circ = numqi.sim.Circuit()
+            if ctrl and len(tg) == 1:
+                circ.controlled_single_qubit_gate(op, ctrl, tg[0])
+            elif ctrl and len(tg) == 2:
+                circ.controlled_double_qubit_gate(op, ctrl, tg)
+            elif not ctrl:
+                [circ.single_qubit_gate, circ.double_qubit_gate, circ.triple_qubit_gate][len(tg) - 1](op, *tg)
+            else:
+                circ = None
+            if circ is not None:
+                if circ.num_qubit < n:        # the circuit only spans the qubits it touches: pad with an identity on the last qubit
+                    circ.single_qubit_gate(np.eye(2), n - 1)
+                got = circ.apply_state(e.copy())
+                if core.gt(np.abs(got - want).max(), TOL):
+                    ctx.violation('C03:Circuit:wide-register', 'a generic gate appended to a circuit acts differently from the embedded operator on a %d-qubit register' % n, data)
+            # density-matrix routine on the same column: U |c><c| U^dagger
+            if not ctrl and n <= 7:
+                dm = np.zeros((2 ** n, 2 ** n), dtype=complex)
+                dm[col, col] = 1
+                got = numqi.sim.dm.apply_gate(dm, op, tg)
+                if core.gt(np.abs(got - np.outer(want, want.conj())).max(), 1e-8):
+                    ctx.violation('C03:dm.apply_gate:wide-register', 'U rho U^dagger on a basis projector of a %d-qubit register' % n, data)
+            ctx.traces += 1
+        except Exception as ex:
+            ctx.violation('C03:exception:wide-register', type(ex).__name__ + ': ' + str(ex)[:160], data)
+
+
 def run_opstring(ctx, quick):
     """operator strings with overlapping, non-commuting factors: <e_r| g_m ... g_1 |e_0> must be the amplitudes of Run(word)"""
     import numqi
@@ -227,6 +273,7 @@ def run(ctx):
     ctx.traces += replay_routing(ctx, list(tlc.parse_dump(r)))
     run_graph(ctx, quick)
     run_opstring(ctx, quick)
+    run_wide(ctx, quick)
     for cfg, num, with_u in [('3', 60 if quick else 600, True), ('4', 40 if quick else 400, False)]:
         r = tlc.run('qsim/Sim_Circuit.tla', 'qsim/Sim_Circuit_%s.cfg' % cfg, simulate=dict(num=num, file=True), depth=9, seed=ctx.seed + 1, workers=8, timeout=3000)
         ctx.add_model('Sim_Circuit(QN=%s)' % cfg, r, exhaustive=False)
